@@ -60,11 +60,14 @@ def plan(prop, tier, seed):
     if prop in ('C03', 'C04', 'C05', 'C06', 'C07', 'C08', 'C09', 'C10'):
         for t in corpus.biglat(seed, big=(tier == 'thorough')):
             out.append((t, False))
+    if prop not in ('C18', 'C15', 'C16'):
+        for t in corpus.hugethin(seed, big=(tier == 'thorough')) + corpus.twins(seed):
+            out.append((t, False))
     if prop in ('C03', 'C04', 'C05', 'C06', 'C08', 'C09', 'C10', 'C11') and tier == 'thorough':
         # larger lattices: random sparse contexts up to 14 x 14
         for t in corpus.randoms(300, seed + 1, 14, 14, 9, 9):
             out.append((t, False))
-    return [(t, ex, i % 3) for i, (t, ex) in enumerate(out)]
+    return [(t, ex, i % 4 if max(t.n, t.m) <= 12 else i % 3) for i, (t, ex) in enumerate(out)]
 
 
 def corpus_repo():
